@@ -28,7 +28,8 @@ def make_v1(T, singles, chords, plain=(), red=1):
 
 
 def make_v2(chords, keys, red=1, minidle=5, lkey=None):
-    """chords: list of (key names, T, 'all'|'first', disabled layers, unicode char or None)."""
+    """chords: list of (key names, T, 'all'|'first', disabled layers, None | 'r' (the action is (unicode r)) |
+    '+r' (the action is (multi <key> (unicode r)): the key shows the hold, the character every performance))."""
     layer = {k: K(IND[k]) for k in keys}
     layers = [layer]
     allkeys = list(keys)
@@ -38,7 +39,8 @@ def make_v2(chords, keys, red=1, minidle=5, lkey=None):
         allkeys.append(lkey)
     ent = []
     for i, (ks, T, rel, dis, uni) in enumerate(chords):
-        ent.append("(%s) %s %d %s (%s)" % (" ".join(ks), "(unicode %s)" % uni if uni else CHO[i], T,
+        act = CHO[i] if not uni else "(unicode %s)" % uni if uni[0] != "+" else "(multi %s (unicode %s))" % (CHO[i], uni[1:])
+        ent.append("(%s) %s %d %s (%s)" % (" ".join(ks), act, T,
                                             "first-release" if rel == "first" else "all-released",
                                             " ".join(cfgdesc.lname(l) for l in dis)))
     desc = {"keys": allkeys, "layers": layers,
@@ -48,8 +50,9 @@ def make_v2(chords, keys, red=1, minidle=5, lkey=None):
     params = {"ver": 2, "T": 0,
               "keys": [{"c": cfgdesc.code(k), "o": cfgdesc.code(IND[k])} for k in keys],
               "part": [cfgdesc.code(k) for k in part],
-              "chords": [{"ks": sorted(cfgdesc.code(k) for k in ks), "o": 0 if uni else cfgdesc.code(CHO[i]),
-                          "u": uni or "", "T": T, "first": rel == "first", "dis": list(dis)}
+              "chords": [{"ks": sorted(cfgdesc.code(k) for k in ks),
+                          "o": 0 if (uni and uni[0] != "+") else cfgdesc.code(CHO[i]),
+                          "u": (uni or "").lstrip("+"), "T": T, "first": rel == "first", "dis": list(dis)}
                          for i, (ks, T, rel, dis, uni) in enumerate(chords)],
               "red": red, "minidle": minidle, "lkey": cfgdesc.code(lkey) if lkey else 0, "slack": 2 * red + 8}
     return desc, params
@@ -69,8 +72,8 @@ def family(tier):
     ]
     v2 = [
         ("v2_pair_T2", make_v2([(("a", "b"), 2, "all", [], None)], "abc"), {"qmax": 2}),
-        ("v2_first_T2", make_v2([(("a", "b"), 2, "first", [], None)], "ab"), {"qmax": 3}),
-        ("v2_uni_T2", make_v2([(("a", "b"), 2, "all", [], "r")], "ab"), {"qmax": 3}),
+        ("v2_first_T2", make_v2([(("a", "b"), 2, "first", [], None)], "ab"), {"qmax": 2}),
+        ("v2_uni_T2", make_v2([(("a", "b"), 2, "all", [], "+r")], "ab"), {"qmax": 2}),
         ("v2_sub_T2", make_v2([(("a", "b"), 2, "all", [], None), (("a", "b", "c"), 2, "first", [], None)], "abc"), {"qmax": 2}),
         ("v2_layer_T2", make_v2([(("a", "b"), 2, "all", [1], None)], "ab", lkey="d"), {"qmax": 2}),
     ]
@@ -151,7 +154,7 @@ def schedule_family(tier):
          dict(keys=[c("a"), c("b"), c("c")], gaps=g3, hold=[6], rgaps=[0, 2], other=[c("d")])),
         ("s_v2_3", make_v2([(("a", "b"), T, "all", [], None), (("a", "b", "c"), T, "first", [], None)], "abcd"),
          dict(keys=[c("a"), c("b"), c("c")], gaps=g3, hold=[6], rgaps=[0, 2], other=[c("d")])),
-        ("s_v2_uni", make_v2([(("a", "b"), T, "all", [], "r"), (("b", "c"), T, "first", [], None)], "abc"),
+        ("s_v2_uni", make_v2([(("a", "b"), T, "all", [], "+r"), (("b", "c"), T, "first", [], "s")], "abc"),
          dict(keys=[c("a"), c("b"), c("c")], gaps=g3, hold=[6], rgaps=[0, 2])),
     ]
     if tier != "quick":
